@@ -158,4 +158,13 @@ CLAIMS = {
         "technique": "outcome-map extraction by conditional constant propagation over enum variants and boundary "
                      "constants; structural audit of macro-generated impls",
     },
+    "C15": {
+        "text": "Claimed: the clause 'indexing never panics on any value' - every panic!/unreachable!/unwrap/expect/"
+                "slice-index/bounds-check/division construct in the code reachable from Value::get, the Index impls for "
+                "usize/str/String/&T/Value and ops::Index::index is discharged or reviewed (the inventory is empty today) "
+                "and ops::Index falls back with unwrap_or(&NIL); thorough recomputes the surface from the monomorphic call "
+                "graph. The consistency relations between the ten traversals are value-level and are not decided.",
+        "note": _TB + "slice::get and std iterator adaptors do not panic.",
+        "technique": "panic-site inventory over call-graph reachability (polymorphic in quick, monomorphic in thorough)",
+    },
 }
